@@ -510,6 +510,15 @@ func (x *rawRun) handshake() bool {
 		for _, d := range x.r.Collect() {
 			x.onStackFrame(d)
 		}
+		if x.dev('q') && x.ch.Choose(2, []int{0, 1}) == 1 {
+			// our handshake ACK was lost: the peer repeats its SYN-ACK, whose window field - like
+			// that of every SYN - is not scaled (RFC 7323 2.2)
+			x.trace = append(x.trace, "peer retransmits its SYN-ACK")
+			x.r.SendTCP(peerPort, x.sPort, cfg.PeerISS, syn.Seq+1, ref.SYN|ref.ACK, uint16(cfg.PeerWnd), x.synOpts(), nil)
+			for _, d := range x.r.Collect() {
+				x.onStackFrame(d)
+			}
+		}
 	} else {
 		x.lst = sk.EP
 		must(sk.EP.Bind(tcpip.FullAddress{Port: stackPort}, nil))
@@ -1407,6 +1416,9 @@ func rawJobsC01(tier string) []string {
 	add(base+",mss=24,w=48,iss=4294967270,piss=2147483640,pd=2x20,b=1", 2)
 	add(base+",mss=536,w=700,pd=2x300,b=1", 2)
 	add(base+",mss=24,w=200+50,sndbuf=64,pd=20,b=1", 2) // writes larger than the free send buffer: partial acceptance
+	// the sender's own sequence numbers cross 2^32 inside the first of several writes
+	add(base+",mss=536,iss=4294967285,w=20+100+30,pd=,b=1", 2)
+	add(base+",mss=24,iss=4294967285,w=20+100,pd=20,b=1", 2)
 	// window-limited sender: writes below the MSS that do not fit the room left in the peer's window
 	add(base+",mss=536,pwnd=1000,w=400+400+400+300,pd=,b=1", 2)
 	add(base+",mss=100,pwnd=150,w=60+60+60+60+200,pd=,b=1", 2)
